@@ -93,6 +93,7 @@ func cmdFunc(args []string) {
 	keep := fs.Bool("keep", false, "keep all query files")
 	nosafe := fs.Bool("nosafety", false, "do not emit safety obligations")
 	dump := fs.Bool("dump", false, "print obligations")
+	seed := fs.Int("seed", 0, "solver seed")
 	fs.Parse(args)
 	t0 := time.Now()
 	pr, err := LoadProg(*repo, []string{filepath.Join(verifRoot(), "spec")})
@@ -140,7 +141,7 @@ func cmdFunc(args []string) {
 		}
 	}
 	fmt.Printf("translated in %.2fs: %d obligations\n", time.Since(t0).Seconds(), len(all))
-	cfg := &SolverCfg{Timeout: time.Duration(*tmo) * time.Second, WorkDir: workDir(), KeepAll: *keep}
+	cfg := &SolverCfg{Timeout: time.Duration(*tmo) * time.Second, WorkDir: workDir(), KeepAll: *keep, Seed: *seed}
 	SolveAll(all, cfg, runtime.NumCPU()/2)
 	fmt.Print(summarize(reps))
 	if *dump {
